@@ -145,18 +145,15 @@ theorem compress_SInv {T : Tun} (hT : TunOK T) (F : SecFns ρ) (s : Sketch ρ) (
 
 /-! ### update -/
 
-theorem update_SInv {T : Tun} (hT : TunOK T) (F : SecFns ρ) (s : Sketch ρ) (x : Int) (acc : Acc) (h : SInv T s) :
-    SInv T (s.update T F x acc).1 ∧ (s.update T F x acc).2.throws = acc.throws ∧
-    entered0 (s.update T F x acc).1 = x :: entered0 s ∧ (s.update T F x acc).1.hra = s.hra ∧ (s.update T F x acc).1.k = s.k := by
+theorem append1_SInv {T : Tun} (s : Sketch ρ) (x : Int) (h : SInv T s) :
+    SInv T (s.append1 x) ∧ entered0 (s.append1 x) = x :: entered0 s := by
   obtain ⟨c, t, hcs⟩ : ∃ c t, s.compactors = c :: t := by
     cases hc : s.compactors with
     | nil => exact absurd hc h.nonnil
     | cons c t => exact ⟨c, t, rfl⟩
   have hcsinv := h.cs; rw [hcs] at hcsinv
   obtain ⟨hc, ht⟩ := hcsinv
-  -- the state after the append
-  let s1 : Sketch ρ := { s with minItem := optMin s.minItem x, maxItem := optMax s.maxItem x, compactors := appendLevel0 s.compactors x, numRetained := s.numRetained + 1, n := s.n + 1 }
-  have hs1c : s1.compactors = c.append x :: t := by simp [s1, hcs, appendLevel0]
+  have hs1c : (s.append1 x).compactors = c.append x :: t := by simp [Sketch.append1, hcs, appendLevel0]
   have happ : CInv T s.hra 0 (c.append x) := by
     refine ⟨hc.lg, hc.hraEq, hc.ns, hc.ss, ?_⟩
     intro hs
@@ -173,40 +170,42 @@ theorem update_SInv {T : Tun} (hT : TunOK T) (F : SecFns ρ) (s : Sketch ρ) (x 
   have hlen : (c.append x).items.length = c.items.length + 1 := by
     simp only [Compactor.append]; split <;> simp
   have hlg : (c.append x).lgWeight = 0 := hc.lg
-  have hent1 : entered0 s1 = x :: entered0 s := by simp [entered0, entered0L, hs1c, hcs, Compactor.append]
-  have hI1 : SInv T s1 := by
-    refine ⟨h.k2, by rw [hs1c]; exact ⟨happ, ht⟩, by rw [hs1c]; simp, ?_, ?_, ?_, ?_, ?_, ?_, ?_, ?_, ?_⟩
-    · show s.numRetained + 1 = sumItems s1.compactors
-      rw [hs1c, sumItems_cons, hlen, h.ret, hcs, sumItems_cons]; omega
-    · show s.maxNomSize = sumCap T s1.compactors
-      rw [hs1c, sumCap_cons, h.cap, hcs, sumCap_cons]; rfl
-    · show s.n + 1 = totalW s1.compactors
-      rw [hs1c, totalW_cons, hlen, hlg, h.tw, hcs, totalW_cons, hc.lg]; omega
-    · intro _
-      rw [hs1c]; refine AllNE_cons.2 ⟨?_, ?_⟩
-      · intro e; rw [e] at hlen; simp at hlen
-      · by_cases hn : s.n = 0
-        · have := h.one hn; rw [hcs] at this; simp at this; rw [this]; exact AllNE_nil
-        · have := h.ne hn; rw [hcs] at this; exact (AllNE_cons.1 this).2
-    · intro h0; simp [s1] at h0
-    · show s.n + 1 = (entered0 s1).length
-      simp only [entered0, entered0L, hs1c, Compactor.append, List.length_cons]
-      have := h.ent; simp only [entered0, entered0L, hcs] at this; omega
-    · show IsMin (optMin s.minItem x) (entered0 s1)
-      rw [hent1]; exact IsMin_cons x h.mn
-    · show IsMax (optMax s.maxItem x) (entered0 s1)
-      rw [hent1]; exact IsMax_cons x h.mx
-    · intro c' hc' p
-      rw [hs1c] at hc'
-      simp only [List.cons.injEq] at hc'
-      obtain ⟨rfl, rfl⟩ := hc'
-      have := h.ex c hcs p
-      simp only [Compactor.append]
-      split <;> simp only [cntP_cons, cntP_append, this, cntP_nil] <;> omega
-  show SInv T (if s1.numRetained = s1.maxNomSize then s1.compress T F acc else (s1, acc)).1 ∧ _
+  have hent1 : entered0 (s.append1 x) = x :: entered0 s := by simp [entered0, entered0L, hs1c, hcs, Compactor.append]
+  refine ⟨⟨h.k2, by rw [hs1c]; exact ⟨happ, ht⟩, by rw [hs1c]; simp, ?_, ?_, ?_, ?_, ?_, ?_, ?_, ?_, ?_⟩, hent1⟩
+  · show s.numRetained + 1 = sumItems (s.append1 x).compactors
+    rw [hs1c, sumItems_cons, hlen, h.ret, hcs, sumItems_cons]; omega
+  · show s.maxNomSize = sumCap T (s.append1 x).compactors
+    rw [hs1c, sumCap_cons, h.cap, hcs, sumCap_cons]; rfl
+  · show s.n + 1 = totalW (s.append1 x).compactors
+    rw [hs1c, totalW_cons, hlen, hlg, h.tw, hcs, totalW_cons, hc.lg]; omega
+  · intro _
+    rw [hs1c]; refine AllNE_cons.2 ⟨?_, ?_⟩
+    · intro e; rw [e] at hlen; simp at hlen
+    · by_cases hn : s.n = 0
+      · have := h.one hn; rw [hcs] at this; simp at this; rw [this]; exact AllNE_nil
+      · have := h.ne hn; rw [hcs] at this; exact (AllNE_cons.1 this).2
+  · intro h0; simp [Sketch.append1] at h0
+  · show s.n + 1 = (entered0 (s.append1 x)).length
+    rw [hent1, List.length_cons, ← h.ent]
+  · show IsMin (optMin s.minItem x) (entered0 (s.append1 x))
+    rw [hent1]; exact IsMin_cons x h.mn
+  · show IsMax (optMax s.maxItem x) (entered0 (s.append1 x))
+    rw [hent1]; exact IsMax_cons x h.mx
+  · intro c' hc' p
+    rw [hs1c] at hc'
+    simp only [List.cons.injEq] at hc'
+    obtain ⟨rfl, rfl⟩ := hc'
+    have := h.ex c hcs p
+    simp only [Compactor.append]
+    split <;> simp only [cntP_cons, cntP_append, this, cntP_nil] <;> omega
+
+theorem update_SInv {T : Tun} (hT : TunOK T) (F : SecFns ρ) (s : Sketch ρ) (x : Int) (acc : Acc) (h : SInv T s) :
+    SInv T (s.update T F x acc).1 ∧ (s.update T F x acc).2.throws = acc.throws ∧
+    entered0 (s.update T F x acc).1 = x :: entered0 s ∧ (s.update T F x acc).1.hra = s.hra ∧ (s.update T F x acc).1.k = s.k := by
+  obtain ⟨hI1, hent1⟩ := append1_SInv s x h
   simp only [Sketch.update]
   split
-  · have := compress_SInv hT F s1 acc hI1 (by simp [s1])
+  · have := compress_SInv hT F (s.append1 x) acc hI1 (by simp [Sketch.append1])
     obtain ⟨a, b, c', d, e, f, g, i⟩ := this
     exact ⟨a, b, by rw [c', hent1], g, i⟩
   · exact ⟨hI1, rfl, hent1, rfl, rfl⟩
